@@ -1,4 +1,5 @@
 import BddProofs.Reach
+import BddProofs.SizeGc
 /-! # C04 — every diagram is a reduced, ordered, complement-edge BDD of minimal size
 
 `NInv` (`BddProofs/Canon.lean`) is the structural invariant of the node set: no two stored cells
@@ -48,6 +49,13 @@ theorem C04_size_stable {s s' : St} (hr : Reachable s) (hr' : Reachable s') (hsu
   rw [size_val (reachable_sizeInv hr').sizeOk, size_val (reachable_sizeInv hr).sizeOk]
   exact descendants_length_sub (reachable_good hr) (reachable_good hr') hsub f hf
 
+/-- … also across a collection that `f` survives: exactly the nodes reachable from `f` are kept, unchanged -/
+theorem C04_size_stable_across_collection {s s' : St} (hr : Reachable s) {roots : List Ref}
+    (hl : ∀ r, r ∈ roots → Live' s r) (h : collectGarbage s roots = .ok s')
+    (f : Ref) (hf : f.idx = 1 ∨ f.idx ∈ descendants s roots) : (size s' f).2 = (size s f).2 :=
+  size_collect (reachable_good hr) (reachable_sizeInv hr).sizeOk
+    (fun r hr' => let ⟨_, v⟩ := hl r hr'; Live.of_valid v) h f hf
+
 /-- non-vacuity -/
 example : Reachable s4 ∧ (size s4 Ref.one).2 = 1 := ⟨.init (sb := 4) (bb := 4) (cb := 4) new4_ok, by rfl⟩
 
@@ -57,3 +65,4 @@ end P
 #print axioms P.C04_size_is_number_of_subfunctions
 #print axioms P.C04_size_of_negation
 #print axioms P.C04_size_stable
+#print axioms P.C04_size_stable_across_collection
